@@ -150,6 +150,21 @@ func (e *c26Env) checkFilterSet(fc filterCtx, fs obsFilterSet, rows []rowEnt, st
 		if missing > 0 {
 			c.violation("c26-missing-entry", fmt.Sprintf("%s %s: %d %s entries of the covered rows test negative", fc.scen, fc.where, missing, classNames[cl]), desc)
 		}
+		// "receives exactly those entries", bit for bit: a filter with the same parameters that is given the
+		// covered rows' entries and nothing else has the same bits (insertion is deterministic); a bit set
+		// beyond them was set by something that is not an entry of this filter
+		if missing == 0 && f.Cap() == mExp && f.K() == kExp {
+			ref := bloom.New(f.Cap(), f.K())
+			for _, r := range rows {
+				for _, s := range r.class(cl) {
+					ref.AddString(s)
+				}
+			}
+			if !ref.Equal(f) {
+				extra := f.BitSet().Count() - ref.BitSet().Count()
+				c.violation("c26-foreign-bits", fmt.Sprintf("%s %s: the %s filter (Cap=%d) has %d set bits that none of its %d entries sets", fc.scen, fc.where, classNames[cl], f.Cap(), extra, n), desc)
+			}
+		}
 		if stat && n >= statMinN {
 			e.statCheck(fc, classNames[cl], f, uint(n), mExp, kExp, desc)
 		}
